@@ -42,6 +42,23 @@ class sub_exprs_expr(Contract):
         return {}
 
 
+class sub_exprs_subclass(Contract):
+    """representatives of the operator subclasses (the `match` of sub_exprs is by isinstance): same rows as their bases"""
+    target = 'fpy2.transform.path:sub_exprs'
+    params = {'node': 'Round | RoundAt | Cast | Add | Neg | Not | Sqrt | Fma | Max | And | ConstPi | Sum | Range3 | Zip | Size',
+              'j': 'int'}
+    returns = 'tuple'
+    properties = ['C19']
+    split = ['node']
+    inline = True
+
+    def post(self, node, j, result):
+        return expr_listing_clauses(node, result, j)
+
+    def raises(self, node, j):
+        return {}
+
+
 class sub_exprs_leaf(Contract):
     """the value expressions hold no expression (the visitor rebuilds them from their scalars)"""
     target = 'fpy2.transform.path:sub_exprs'
